@@ -482,6 +482,20 @@ def ls_tlv_cases(rng, thorough):
                 inner = struct.pack('!HH', t, L) + b'\x00' * L
                 v = b'\x00' * fixed + inner
                 ls.append(struct.pack('!HH', outer, len(v)) + v)
+    # deep nesting: a carrier inside a carrier inside ... (sub-TLVs are resolved through the same table, so a chain
+    # is well-formed input); decoding work must stay linear in the input whatever the depth
+    carriers = ((1106, 22), (1107, 28), (1162, 8))
+    for depth in (8, 20, 40, 100, 130):
+        for start in range(len(carriers)):
+            for mixed in (False, True):
+                v = b''
+                for k in range(depth):
+                    outer, fixed = carriers[(start + (k if mixed else 0)) % len(carriers)]
+                    nv = b'\x00' * fixed + v
+                    if len(nv) + 4 > 4000:
+                        break
+                    v = struct.pack('!HH', outer, len(nv)) + nv
+                ls.append(v)
     ps = []
     for owner, hdr in ((BGPPrefixSID, b''), (SRv6L3Service, b'\x00'), (SRv6SIDInformation, b'\x00' * 21)):
         for t in sorted(owner.registered_tlvs) + [0, 200]:
